@@ -350,7 +350,7 @@ DIGEST_KINDS = [
     ('ok', 14),
     ('wrong_password', 6), ('other_users_password', 3), ('unknown_user', 3), ('empty_password_user', 2),
     ('client_other_realm', 2), ('method_mismatch', 3), ('body_mismatch', 1),
-    ('nonce_forged', 10), ('nonce_stale', 6), ('nonce_stale_wrong_password', 2), ('nonce_future', 1),
+    ('nonce_forged', 10), ('nonce_other_realm_claimed', 2), ('nonce_stale', 6), ('nonce_stale_wrong_password', 2), ('nonce_future', 1),
     ('tamper_response', 6), ('tamper_uri', 2), ('tamper_nc', 2), ('tamper_cnonce', 2), ('tamper_qop', 2),
     ('tamper_algorithm', 2), ('tamper_username', 3), ('tamper_realm_field', 2),
     ('drop_field', 6), ('dup_field', 2), ('extra_field', 2), ('empty_value', 4), ('bad_value', 2),
@@ -430,6 +430,14 @@ def gen_digest_case(rng, cfg, world):
         forged = rng.choice(FORGERIES)
         nonce = forge_nonce(rng, nonce, forged, cfg, world, int(issue_at))
         kind = 'nonce_forged:' + forged
+    header_realm = None
+    if kind == 'nonce_other_realm_claimed':
+        # a nonce handed out for ANOTHER realm by a server sharing the key, replayed here with that realm named in
+        # the header while everything is computed for this realm: not "issued by this server for this realm"
+        other = cfg['realm'] + rng.choice(['x', '2', ' '])
+        nonce = world.issue(dict(cfg, realm=other), issue_at) or 'abc'
+        header_realm = other
+        genuine = {}
     if kind == 'int_nonce_ts':
         # the server's own nonce format with a timestamp int() reads differently from how it is written
         # (the harness knows the key here: this exercises validate_nonce/is_nonce_stale on exotic but *forgeable
@@ -445,7 +453,8 @@ def gen_digest_case(rng, cfg, world):
     sent_alg, sent_qop = alg, qop
     response = rfc2617_response(ha1, nonce, method_used, uri, qop, nc if qop else None, cnonce if (qop or alg == 'MD5-sess') else None,
                                 alg, body_used.encode('latin-1'))
-    items = [('username', user_used), ('realm', realm_used), ('nonce', nonce), ('uri', uri), ('response', response)]
+    items = [('username', user_used), ('realm', header_realm or realm_used), ('nonce', nonce), ('uri', uri),
+             ('response', response)]
     if alg is not None:
         items.append(('algorithm', alg))
     if qop is not None:
